@@ -4,7 +4,7 @@ CONSTANTS NK = 3
   KMax <- M3_322
   KGen <- G3_211
   MaxN = 1
-  OtherKinds <- OthersAll
+  OtherKinds <- OthersFew
   D = 0
 INIT Init
 NEXT Next
